@@ -13,6 +13,7 @@ import Proofs.C11_Reuss
 import Proofs.C11_Setters
 import Proofs.C11_Fixpoint
 import Proofs.C11_Axes
+import Proofs.C11_Init
 
 namespace Atomman.C11
 open Atomman.Gen
